@@ -294,14 +294,20 @@ var $newType = (size, kind, string, named, pkg, exported, constructor) => {
                 typ.ptr.nil.$val = typ.ptr.nil;
                 /* methods for embedded fields */
                 $addMethodSynthesizer(() => {
-                    var synthesizeMethod = (target, m, f) => {
+                    var synthesizeMethod = (target, m, f, fieldAddr) => {
                         if (Object.prototype.hasOwnProperty.call(target.prototype, m.prop)) { return; }
                         target.prototype[m.prop] = function(...args) {
-                            var v = this.$val[f.prop];
+                            var self = this.$val;
+                            var v = self[f.prop];
                             if (f.typ === $jsObjectPtr) {
                                 v = new $jsObjectPtr(v);
                             }
-                            if (v.$val === undefined) {
+                            if (fieldAddr) {
+                                /* pointer-receiver method of a non-struct field: the receiver is the field's address */
+                                var ptrType = $ptrType(f.typ), cache = "$ptr_" + f.name;
+                                v = (f.typ.kind === $kindArray) ? new ptrType(v) : (self[cache] || (self[cache] =
+                                    new ptrType(function() { return this.$target[f.prop]; }, function(x) { this.$target[f.prop] = x; }, self)));
+                            } else if (v.$val === undefined) {
                                 v = new f.typ(v);
                             }
                             $stackDepthOffset--; /* invisible to recover(), like $methodExpr */
@@ -318,8 +324,9 @@ var $newType = (size, kind, string, named, pkg, exported, constructor) => {
                                 synthesizeMethod(typ, m, f);
                                 synthesizeMethod(typ.ptr, m, f);
                             });
+                            var fieldAddr = (f.typ.kind !== $kindStruct && f.typ.kind !== $kindPtr && f.typ.kind !== $kindInterface);
                             $methodSet($ptrType(f.typ)).forEach(m => {
-                                synthesizeMethod(typ.ptr, m, f);
+                                synthesizeMethod(typ.ptr, m, f, fieldAddr);
                             });
                         }
                     });
